@@ -26,11 +26,12 @@ class CropMachine:
 
     def __init__(self, ctx, kinds=None, max_n=40, farmer_roles=None, max_batches=None,
                  world_cfg=None, allow_cases=True, ext_choice=True, name_choice=False,
-                 arg_pool=None):
+                 arg_pool=None, farmer_ctor_choice=False):
         import xyzpy  # noqa - after interpose.install()
 
         self.ctx = ctx
         self.tape = ctx.tape
+        self.allow_farmer_ctor = farmer_ctor_choice
         t = self.tape
         simexec.install()
         cfg = {
@@ -75,8 +76,10 @@ class CropMachine:
         self.fspec = None
         if role is not None:
             self.fspec = F.gen_farmer(t, role, sc.sweep, self.root, ext_choice=ext_choice)
-            # Runner.Crop / Harvester.Crop take no shuffle argument
-            if sc.shuffle["site"] == "ctor":
+            # Runner.Crop / Harvester.Crop take no shuffle argument; xyzpy.Crop(farmer=...) does
+            self.farmer_via_ctor = bool(getattr(self, "allow_farmer_ctor", False)) and \
+                t.flag(1, 3, "crop-built-with-farmer-argument")
+            if sc.shuffle["site"] == "ctor" and not self.farmer_via_ctor:
                 sc.shuffle = {"value": sc.shuffle["value"] if sc.api == "sow_combos" else False,
                               "site": "sow"}
         sc.farmer = self.fspec.describe() if self.fspec else None
@@ -138,6 +141,8 @@ class CropMachine:
             if not (getattr(self, "reuse_farmer", False) and self.farmer_obj is not None):
                 self.farmer_obj = self.fspec.build(self.fn)
             kw = self.ctor_kwargs()
+            if getattr(self, "farmer_via_ctor", False):
+                return xyzpy.Crop(farmer=self.farmer_obj, name=self.NAME, parent_dir=self.root, **kw)
             kw.pop("shuffle", None)
             return self.farmer_obj.Crop(name=self.NAME, parent_dir=self.root, **kw)
         return xyzpy.Crop(fn=self.fn, name=self.NAME, parent_dir=self.root,
@@ -349,7 +354,7 @@ def run_c04(ctx):
     """sow / grow (any order, grouping, repetition, parallel) / reap == direct"""
     deep = ctx.params.get("tier") == "thorough"
     # (argument names: also ones the library uses for its own parameters)
-    m = CropMachine(ctx, max_n=64 if deep else 40,
+    m = CropMachine(ctx, max_n=64 if deep else 40, kinds=G.KINDS + [("nones", 1)],
                     arg_pool=G.ARG_POOL + ["self", "fn", "crop"])
     t = ctx.tape
     m.sow()
@@ -427,12 +432,16 @@ def query_progress(m, model, where):
     B = m.B
     exp_missing = tuple(sorted(model.all - model.finished))
     exp = (B, len(model.finished), exp_missing, model.finished == model.all)
-    for which in ("fresh", "long"):
+    kinds_ = ["fresh", "long"]
+    if m.fspec is None and m.tape.flag(1, 4, "query-by-rerun-object"):
+        kinds_.append("rerun")  # the sowing script run again: same constructor arguments
+    for which in kinds_:
         if which == "long" and m.long_crop is None:
             continue
 
         def f():
-            c = m.load_crop() if which == "fresh" else m.long_crop
+            c = m.load_crop() if which == "fresh" else (
+                m.long_crop if which == "long" else m.new_sow_crop())
             return (c.num_sown_batches, c.num_results, tuple(c.missing_results()),
                     bool(c.is_ready_to_reap()), str(c))
 
@@ -792,6 +801,10 @@ def run_c09(ctx):
     m = CropMachine(ctx, kinds=kinds, max_n=30, max_batches=7,
                     world_cfg={"mtime_granularity": "tape"})
     t = ctx.tape
+    early = None
+    if t.flag(1, 4, "object-made-before-the-sow"):
+        # a second session opened the (not yet existing) crop by name before it was sown
+        early, _ = m.call("early-bird", lambda: m.load_crop(), oracle="early-crop-raised")
     m.sow()
     sw = m.sc.sweep
     kind = m.sc.kind
@@ -811,6 +824,8 @@ def run_c09(ctx):
             form = "ds"
         before = G.snapshot_tree(m.location)
         crop, which = m.crop_for("reap-reuse")
+        if early is not None and t.flag(1, 2, "reap-by-early-object"):
+            crop, which = early, "made-before-sow"
         ctx.t("partial-reap", form, which, "finished", sorted(finished))
         kw, _ = VAR_DESC[kind]
 
